@@ -14,11 +14,12 @@ namespace std { static vx_ostream cerr; }
 namespace souffle {
 enum { VX_ALL = 0, VX_END = 1, VX_ANT = 2, VX_ANTPOST = 3 };
 struct vx_iter { int kind; RamDomain a; RamDomain b; };
-template <typename I> struct range { I b; I e; };
+template <typename I> struct range { I b; I e; I begin() const { return b; } I end() const { return e; } };
 template <typename I> range<I> make_range(const I& b, const I& e) { range<I> r; r.b = b; r.e = e; return r; }
 struct vx_tuple2 {
     RamDomain d[2];
     RamDomain operator[](int i) const { return d[i]; }
+    RamDomain& operator[](int i) { return *(d + i); }
 };
 struct vx_sds {
     bool nodeExists(RamDomain v) const { return vx_nodeExists(v); }
@@ -34,6 +35,13 @@ struct vx_eqrel_base {
     iterator end() const { vx_iter i; i.kind = VX_END; i.a = 0; i.b = 0; return i; }
     iterator anteriorIt(value_type x) const { vx_iter i; i.kind = VX_ANT; i.a = x; i.b = 0; return i; }
     iterator antpostit(value_type x, value_type y) const { vx_iter i; i.kind = VX_ANTPOST; i.a = x; i.b = y; return i; }
+};
+// scaffold for t_eqrel's nested types: iterator_0 forwards, iterator_1 yields the tuples with their columns swapped
+struct vx_t_eqrel_base {
+    typedef vx_tuple2 t_tuple;
+    struct context { int hints; };
+    struct iterator { vx_iter n; int swapped; iterator() {} iterator(const vx_iter& i) : n(i), swapped(0) {} };
+    struct iterator_1 { vx_iter n; int swapped; iterator_1() {} iterator_1(const vx_iter& i) : n(i), swapped(1) {} };
 };
 }
 #endif
